@@ -241,9 +241,13 @@ static Verdict run_case(const LCase &c) {
       pixman_region32_fini(&r);
       if (m.other >= 3) {
         // ... and through the 16-bit entry point, which converts into the image's region (replacing whatever it held)
-        pixman_box16_t b16[3] = {{0, 0, 2, 2}, {1, 2, 5, 4}, {0, 4, 2, 5}};
+        // rectangle counts on both sides of the converter's on-stack array (16 boxes)
+        static const int counts[8] = {1, 2, 3, 15, 16, 17, 18, 40};
+        int n16 = counts[(m.a + m.other) % 8];
+        std::vector<pixman_box16_t> b16;
+        for (int i = 0; i < n16; i++) b16.push_back(pixman_box16_t{(int16_t)(i & 1), (int16_t)(2 * i), (int16_t)(3 + (i & 1)), (int16_t)(2 * i + 1)});
         pixman_region16_t r16;
-        pixman_region_init_rects(&r16, b16, 1 + (m.a + m.other) % 3);
+        pixman_region_init_rects(&r16, b16.data(), n16);
         if (!pixman_image_set_clip_region(x.im, &r16)) v.fail(fmt("step %d: set_clip_region failed", step));
         pixman_region_fini(&r16);
       }
